@@ -2299,3 +2299,28 @@ package sarama
 //@   callsite Broker.send: requires[asks_for_a_response_iff_expected] $rb == req && $promiseResponse == (res != nil)
 //@   callsite versionedDecode: requires[decoded_into_the_callers_response] $in == res && $version == req.version()
 //@   nosafety
+
+// ---------------------------------------------------------------------------------------------
+// partitionProducer.dispatch (C05 stamping site, C01 hand-over): a message is given a sequence number only on its
+// first pass (no retries, no marker flags), from the counter of its own topic and partition; what is handed to the
+// broker worker is the message received in this iteration.
+//@ func (pp *partitionProducer) updateLeader() trusted
+//@   returns err
+//@   ensures err == nil ==> pp.brokerProducer != nil
+//@   modifies pp.leader, pp.brokerProducer, $wg
+//@ func (pp *partitionProducer) newHighWatermark(hwm) trusted
+//@   modifies pp.highWatermark, pp.brokerProducer, $wg, partitionProducer.retryState
+//@ func (pp *partitionProducer) flushRetryBuffers() trusted
+//@   modifies pp.highWatermark, pp.brokerProducer, pp.leader, $wg, partitionProducer.retryState, ProducerMessage.disp, ProducerMessage.errEvents, ProducerMessage.succEvents, ProducerMessage.flags, ProducerMessage.retries, ProducerMessage.sequenceNumber, ProducerMessage.producerEpoch, ProducerMessage.hasSequence
+//@ func (pp *partitionProducer) backoff(retries) trusted
+//@   modifies nothing
+//@ func (p *asyncProducer) unrefBrokerProducer(broker, bp) trusted
+//@   modifies nothing
+//@ func (pp *partitionProducer) dispatch() props C05 C01
+//@   requires pp.parent != nil && pp.parent.conf != nil && pp.parent.txnmgr != nil && pp.parent.txnmgr.sequenceNumbers != nil
+//@   callsite transactionManager.getAndIncrementSequenceNumber: requires[first_pass_only] msg.retries == 0 && msg.flags == 0 && pp.parent.conf.Producer.Idempotent
+//@   callsite transactionManager.getAndIncrementSequenceNumber: requires[own_partition_counter] $topic == msg.Topic && $partition == msg.Partition
+//@   callsite send.input#1: requires[hands_over_the_received_message] $value == msg && pp.brokerProducer != nil
+//@   callsite send.input#1: requires[stamped_iff_first_pass_of_an_idempotent_producer] pp.parent.conf.Producer.Idempotent && msg.retries == 0 && msg.flags == 0 ==> msg.hasSequence
+//@   loop 0: invariant pp.parent == old(pp.parent) && pp.parent.conf == old(pp.parent.conf) && pp.parent.txnmgr == old(pp.parent.txnmgr) && pp.parent.txnmgr.sequenceNumbers != nil
+//@   nosafety
